@@ -262,3 +262,173 @@ Proof.
   cbn [ti_blocks ti_size ti_tip]. apply ti_updates_blocks in Eu; [|cbn [ti_blocks ti_size length]; rewrite rev_length; lia].
   cbn [ti_blocks ti_size] in Eu. destruct Eu as [Hb Hs]. rewrite Hb, Hs. auto.
 Qed.
+
+(* ------------------------------------------------------------------------------------------ *)
+(* 2. the procedures reached from add_appointment and from the watcher's listener *)
+
+(* everything but the trackers, the carrier and the log *)
+Definition kcore (t : tower) :=
+  (cfg t, gk_users t, gk_height t, db_users t, db_apps t, (r_index t, reorged t, w_cache t, w_height t)).
+
+Lemma core_kcore t t' : TowerLedger.core t' = TowerLedger.core t -> kcore t' = kcore t.
+Proof. unfold TowerLedger.core, kcore. intros H. inversion H. reflexivity. Qed.
+
+Lemma add_tracker_kcore t uuid d p s : kcore (r_add_tracker t uuid d p s) = kcore t.
+Proof.
+  unfold r_add_tracker. destruct s; try reflexivity;
+    destruct (find_trk (db_trks t) uuid); try reflexivity; destruct (find_app (db_apps t) uuid); reflexivity.
+Qed.
+
+Lemma handle_breach_kcore sc t uuid d p s t' : r_handle_breach sc t uuid d p = Ok s t' -> kcore t' = kcore t.
+Proof.
+  intros H. apply TowerLedger.handle_breach_spec in H. destruct H as [t1 [Hc [_ [Ht _]]]]. subst t'.
+  destruct (status_accepted s); [rewrite add_tracker_kcore|]; apply core_kcore; exact Hc.
+Qed.
+
+Lemma kcore_fields t t' :
+  kcore t' = kcore t ->
+  cfg t' = cfg t /\ gk_users t' = gk_users t /\ gk_height t' = gk_height t /\ db_users t' = db_users t /\
+  db_apps t' = db_apps t /\ r_index t' = r_index t /\ w_cache t' = w_cache t /\ reorged t' = reorged t.
+Proof. unfold kcore. intros H. inversion H. repeat split; assumption. Qed.
+
+(* S_r_get_height_unwrap *)
+Lemma handle_breach_ok sc t uuid d p : idx_val (r_index t) -> ok (r_handle_breach sc t uuid d p).
+Proof.
+  intros Hv. unfold r_handle_breach.
+  destruct (ti_get (r_index t) p) as [bh|] eqn:Eg.
+  - pose proof (get_height_some _ _ _ Hv Eg) as Hh. destruct (ti_get_height (r_index t) bh); [exact I|contradiction].
+  - destruct (in_mempool sc t p) as [inm t1]. destruct inm; [exact I|].
+    destruct (send_transaction sc t1 p) as [s t2]. exact I.
+Qed.
+
+(* S_w_load_appointment_unwrap *)
+Lemma breach_uuid_loop_ok sc d : forall us t inv,
+  idx_val (r_index t) -> (forall u, In u us -> find_app (db_apps t) u <> None) ->
+  ok (breach_uuid_loop sc d us t inv).
+Proof.
+  induction us as [|uuid us IH]; intros t inv Hv Hrows; cbn [breach_uuid_loop]; [exact I|].
+  destruct (find_app (db_apps t) uuid) as [a|] eqn:Ef; [|exact (Hrows uuid (or_introl eq_refl) Ef)].
+  assert (Hrows' : forall u, In u us -> find_app (db_apps t) u <> None) by (intros u Hu; apply Hrows; right; exact Hu).
+  destruct (decrypt (a_blob a) d) as [p|]; [|apply IH; assumption].
+  apply ok_bind; [apply handle_breach_ok; exact Hv|].
+  intros s t1 E. apply handle_breach_kcore in E. apply kcore_fields in E. destruct E as [_ [_ [_ [_ [Ha [Hi _]]]]]].
+  apply IH; [rewrite Hi; exact Hv|rewrite Ha; exact Hrows'].
+Qed.
+
+Lemma breach_uuid_loop_kcore sc d : forall us t inv inv' t',
+  breach_uuid_loop sc d us t inv = Ok inv' t' -> kcore t' = kcore t.
+Proof.
+  induction us as [|uuid us IH]; intros t inv inv' t'; cbn [breach_uuid_loop]; [intros H; inversion H; reflexivity|].
+  destruct (find_app (db_apps t) uuid) as [a|]; [|discriminate].
+  destruct (decrypt (a_blob a) d) as [p|]; [|apply IH].
+  destruct (r_handle_breach sc t uuid d p) as [s t1|] eqn:Eh; cbn [bind]; [|discriminate].
+  apply handle_breach_kcore in Eh. intros H. apply IH in H. congruence.
+Qed.
+
+Lemma breach_loop_kcore sc : forall ds t inv inv' t',
+  breach_loop sc ds t inv = Ok inv' t' -> kcore t' = kcore t.
+Proof.
+  induction ds as [|d ds IH]; intros t inv inv' t'; cbn [breach_loop]; [intros H; inversion H; reflexivity|].
+  destruct (breach_uuid_loop sc d _ t inv) as [inv1 t1|] eqn:Eb; cbn [bind]; [|discriminate].
+  apply breach_uuid_loop_kcore in Eb. intros H. apply IH in H. congruence.
+Qed.
+
+Lemma breach_loop_ok sc : forall ds t inv, idx_val (r_index t) -> ok (breach_loop sc ds t inv).
+Proof.
+  induction ds as [|d ds IH]; intros t inv Hv; cbn [breach_loop]; [exact I|].
+  apply ok_bind.
+  - apply breach_uuid_loop_ok; [exact Hv|].
+    intros u Hu. apply in_map_iff in Hu. destruct Hu as [a [He Ha]]. apply filter_In in Ha. destruct Ha as [Ha _].
+    destruct (find_app_In _ _ Ha) as [a' Ha']. rewrite <- He, Ha'. discriminate.
+  - intros inv1 t1 E. apply breach_uuid_loop_kcore in E. apply kcore_fields in E.
+    destruct E as [_ [_ [_ [_ [_ [Hi _]]]]]]. apply IH. rewrite Hi. exact Hv.
+Qed.
+
+(* S_w_cache_update + the loops *)
+Lemma w_block_connected_ok sc t b h :
+  idx_wf (w_cache t) -> idx_val (r_index t) -> ok (w_block_connected sc t b h).
+Proof.
+  intros Hwf Hv. unfold w_block_connected. destruct (ti_update_some (w_cache t) b Hwf) as [c Ec]. rewrite Ec.
+  apply ok_bind; [apply breach_loop_ok; exact Hv|]. intros invalid t2 _.
+  apply ok_bind; [destruct invalid; exact I|]. intros _ t3 _. exact I.
+Qed.
+
+Lemma w_block_connected_indexes sc t b h t' :
+  w_block_connected sc t b h = Ok tt t' ->
+  ti_update (w_cache t) b = Some (w_cache t') /\ r_index t' = r_index t /\ gk_height t' = gk_height t /\ cfg t' = cfg t.
+Proof.
+  unfold w_block_connected. destruct (ti_update (w_cache t) b) as [c|]; [|discriminate].
+  destruct (breach_loop sc _ (set_w_cache t c) []) as [invalid t2|] eqn:Eb; cbn [bind]; [|discriminate].
+  apply breach_loop_kcore in Eb. apply kcore_fields in Eb. destruct Eb as [Hc [_ [Hh [_ [_ [Hi [Hw _]]]]]]].
+  destruct invalid as [|i0 is]; cbn [bind gk_delete_appointments]; intros H; inversion H; subst t'; clear H;
+    cbn [w_cache r_index gk_height cfg set_w_height db_delete_apps set_db_trks set_db_apps];
+    rewrite Hw, Hi, Hh, Hc; repeat split.
+Qed.
+
+(* S_gk_outdated_overflow *)
+Lemma outdated_users_some delta h us :
+  (forall u ui, In (u, ui) us -> u_expiry ui + delta <= U32MAX) -> outdated_users delta h us <> None.
+Proof.
+  induction us as [|[u ui] us IH]; intros Hb; cbn [outdated_users]; [discriminate|].
+  unfold u32_add. pose proof (Hb u ui (or_introl eq_refl)) as H1. apply N.leb_le in H1. rewrite H1.
+  destruct (outdated_users delta h us) eqn:E; [discriminate|].
+  exfalso. apply IH; [|reflexivity]. intros v vi Hv. apply (Hb v vi). right. exact Hv.
+Qed.
+
+(* every subscription can still be given its grace period in u32 *)
+Definition ExpInv (t : tower) : Prop :=
+  forall u ui, aget (db_users t) u = Some ui -> u_expiry ui + c_delta (cfg t) <= U32MAX.
+
+Lemma gk_block_connected_ok t h : Inv t -> ExpInv t -> ok (gk_block_connected t h).
+Proof.
+  intros HI HE. unfold gk_block_connected.
+  destruct (outdated_users (c_delta (cfg t)) h (gk_users t)) eqn:Eo; [exact I|].
+  exfalso. revert Eo. apply outdated_users_some. intros u ui Hin. apply (HE u).
+  rewrite <- (inv_sync t HI). apply aget_In_nodup; [exact (inv_mem_nodup t HI)|exact Hin].
+Qed.
+
+(* S_w_store_insert_unwrap *)
+Lemma store_appointment_ok t a : amem (db_users t) (a_user a) = true -> ok (w_store_appointment t a).
+Proof.
+  intros Hm. unfold w_store_appointment. destruct (find_app (db_apps t) (app_uuid a)); [exact I|]. rewrite Hm. exact I.
+Qed.
+
+Lemma store_appointment_indexes t a t' :
+  w_store_appointment t a = Ok tt t' -> r_index t' = r_index t /\ w_cache t' = w_cache t.
+Proof.
+  unfold w_store_appointment. destruct (find_app (db_apps t) (app_uuid a)).
+  - intros H; inversion H; subst; split; reflexivity.
+  - destruct (amem (db_users t) (a_user a)); intros H; inversion H; subst; split; reflexivity.
+Qed.
+
+Lemma store_triggered_ok sc t a d :
+  amem (db_users t) (a_user a) = true -> idx_val (r_index t) -> ok (w_store_triggered sc t a d).
+Proof.
+  intros Hm Hv. unfold w_store_triggered. destruct (decrypt (a_blob a) d) as [p|].
+  - apply ok_bind; [apply store_appointment_ok; exact Hm|]. intros [] t1 E1.
+    apply store_appointment_indexes in E1. destruct E1 as [Hi _].
+    apply ok_bind; [apply handle_breach_ok; rewrite Hi; exact Hv|]. intros s t2 _.
+    destruct (status_rejected s); exact I.
+  - destruct (find_app (db_apps t) (app_uuid a)); exact I.
+Qed.
+
+(* add_appointment: S_api_expired_unwrap, S_gk_charge_user_unwrap, S_w_store_insert_unwrap, S_r_get_height_unwrap *)
+Lemma add_appointment_ok sc t signer loc b delay sig :
+  Inv t -> idx_val (r_index t) -> ok (w_add_appointment sc t signer loc b delay sig).
+Proof.
+  intros HI Hv. unfold w_add_appointment.
+  destruct (authenticate t signer) as [u|] eqn:Ea; [|exact I].
+  apply authenticate_Some in Ea. destruct Ea as [_ Hm]. apply amem_get in Hm. destruct Hm as [ui Hg].
+  unfold gk_get at 1. rewrite Hg.
+  destruct (N.leb (u_expiry ui) (gk_height t)); [exact I|].
+  destruct (find_trk (db_trks t) (loc, u)); [exact I|].
+  unfold gk_add_update_appointment, gk_get. rewrite Hg.
+  match goal with |- context [if ?c then _ else _] => destruct c end; cbn [bind]; [|exact I].
+  set (ui' := mk_uinfo _ _ _). set (t1 := p_set_user t u ui').
+  assert (Hrow : amem (db_users t1) u = true).
+  { unfold amem, t1, p_set_user, db_update_user. cbn [db_users set_db_users gk_put set_gk_users].
+    rewrite aget_map_update, N.eqb_refl, <- (inv_sync t HI), Hg. reflexivity. }
+  apply ok_bind; [|intros; exact I].
+  change (w_cache t1) with (w_cache t).
+  destruct (ti_get (w_cache t) loc) as [dispute|]; [apply store_triggered_ok|apply store_appointment_ok]; assumption.
+Qed.
